@@ -32,6 +32,14 @@ CLAIMED = {
          "Static decision, on every path including every error exit, that each File obtained from the backend is closed, moved into exactly one reference, or returned (never leaked, overwritten or closed twice), that a reference's File is always a fresh backend value, that reference acquisitions and releases cancel on every exit of every handler and helper, that DecRef closes the File and releases the parent exactly on the zero transition, that only DecRef closes published Files, and that teardown waits for in-flight handlers before closing transports and dropping the table's references with every serving goroutine counted. Right level: exactly-once closing is a pairing discipline on paths; the error paths no test drives are paths of the same CFG.",
          "Assumes the File contract that a source returning an error returns no File; the numeric reference count over a whole history is not computed, only per-path pairing; Close ordering after disconnect relies on the shape of stop() and sync.WaitGroup semantics.",
          "DESIGN.md section 4 C05, section 3 D"),
+ "C06": ("min/max call-count dataflow for send on every path of handleRequest, value identity of tag and message, who-may-call rules, must/may lock sets at send, handler dispatch, goroutine spawn and blocking operations, interprocedural may-held locks at backend call sites",
+         "Static decision that every path of handleRequest performs exactly one send (with the tag recv returned and the handler's result, or Rlerror for a protocol error) when a reply is due and none otherwise, that only handleRequest/sendRecv write frames and each frame leaves under sendMu through one vectored write, that the handler runs with no connection lock held after a further receiver was spawned under the receive token, that the tag is cleared after the handler and before the reply, that a panic cannot cut this path, that no backend call can run and nothing blocks while a connection-wide lock may be held, and that a self-referential Tflush is answered. Right level: one reply per request is a counting fact over the paths of one function; concurrency of service is decided in its necessary-condition form (no extra serialisation point exists).",
+         "Fairness and actual progress under a real scheduler are not decided. Trusts sync.Mutex/WaitGroup semantics. May-held lock sets are computed over resolved static calls (interface dispatch into handlers is modelled as entry with nothing held, which is what connState.handle guarantees by r4).",
+         "DESIGN.md section 4 C06"),
+ "C14": ("must-pass-through (WaitTag before Rflush), who-may-close/who-may-call rules for tag channels and ClearTag, call-graph reachability for go statements and side effects, path facts for the own-tag bypass, may-held locks at the blocking receive",
+         "Static decision that Rflush is produced only after WaitTag(OldTag), that WaitTag blocks on exactly the channel StartTag registered and returns at once for idle tags, that the channel is closed only by ClearTag which runs only after cs.handle returned (no handler can start a goroutine, so all backend calls of a request are over by then), that a flush of the request's own tag bypasses the wait, that nothing reachable from the flush handler has side effects, and that WaitTag blocks with no lock held. Right level: these are ordering and reachability facts of the code; the property's quantifier over interleavings is discharged by them.",
+         "Mutual flush cycles among several in-flight flushes (liveness over histories) are not decided. Trusts Go channel close/receive semantics.",
+         "DESIGN.md section 4 C14"),
 }
 
 NOT_YET = "check not built yet (work in progress; DESIGN.md section 4 describes the planned static rules)"
